@@ -579,7 +579,7 @@ func c09gen(c *h.Ctx, yield func(*h.Case)) {
 	emitTo("corpus", "corpus-recvloop-local", "c09 open local 0", "c09 handler 10", "c09 handler 11",
 		"c09 rawconn 1 id", "c09 rawconn 1 id", "c09 rawconn 2 id", "c09 rawconn 1 id",
 		"c09 rawev 1 0 gxg", "c09 rawev 1 1 gc", "c09 conns 1", "c09 rawev 2 0 xc", "c09 rawev 1 2 ggxg", "c09 rawev 1 0 c", "c09 conns 1",
-		"c09 send router 0 1", "c09 rawev 1 2 xgc", "c09 conns 1", "c09 send router 1 1")
+		"c09 send sendto 0 1", "c09 rawev 1 2 xgc", "c09 conns 1", "c09 send router 1 1")
 	for i, nl := 0, c.Pick(10, 120); i < nl; i++ {
 		ops := []string{"c09 open local 0"}
 		for j := r.Intn(3); j > 0; j-- {
